@@ -953,7 +953,12 @@ def _boundary_values_in(units, args, kwargs):
         if isinstance(v, (list, tuple)) and any(isinstance(o, unyt_array) for o in v):
             # a list of quantities is a quantity
             v = unyt_array(v)
-        return v.to_value(units) if isinstance(v, unyt_array) else v
+        if not isinstance(v, unyt_array):
+            return v
+        if v.units == units:
+            # no conversion: integer data stay integers
+            return np.asarray(v)
+        return v.to_value(units)
 
     args = tuple(in_units(v) for v in args)
     kwargs = {k: in_units(v) for k, v in kwargs.items()}
